@@ -241,6 +241,27 @@ func (_this *mapBuilder) BuildBeginMapContents(ctx *Context) {
 }
 
 func (_this *mapBuilder) BuildFromLocalReference(ctx *Context, id []byte) {
+	if _this.builderIndex == kvBuilderKey {
+		// A reference in key position must be resolved at once: the key is needed
+		// when the value arrives.
+		resolved := false
+		expired := false
+		ctx.NotifyLocalReference(id, func(object reflect.Value) {
+			if expired {
+				return
+			}
+			key := _this.newElem()
+			setAnythingFromAnything(object, key)
+			_this.store(key)
+			resolved = true
+		})
+		expired = true
+		if !resolved {
+			panic(fmt.Errorf("map key refers to marker [%s], which has not been defined yet", string(id)))
+		}
+		return
+	}
+
 	container := _this.container
 	key := _this.key
 	tempValue := _this.newElem()
